@@ -13,6 +13,7 @@ D = {
  "C02-D": ("C02", "jwt-verify resolves 'the key's alg wins over -a' before calling setkey", "jwt-verify -a RS512 -k key-with-alg-RS256 TOKEN: no Alg mismatch, exit 0"),
  "C03-A": ("C03", "same change as C01-A (chosen independently by the C03 agent)", "as C01-A"),
  "C03-B": ("C03", "jwt_str_alg compares names with strcasecmp", "a header alg spelled 'NONE', 'None', 'hs256', ..."),
+ "C03-C": ("C03", "jwt_verify_complete takes the signature to be the LAST dot-separated segment (strrchr)", "an alg none token with more than three segments and an empty last one, on a keyless checker: accepted although the third segment is not empty"),
  "C04-A": ("C04", "jwt_checker_time_leeway(.., 0) no longer re-enables a disabled check", "leeway set to -1 and later to 0 for the same claim"),
  "C04-B": ("C04", "claim checks are skipped for unsigned tokens", "an alg none token with an expired exp / wrong iss on a keyless checker"),
  "C04-C": ("C04", "exp/nbf compared through a helper returning now - claim (overflows for claims near INT64_MIN)", "a token with exp or nbf within 'now' of INT64_MIN: long-expired token accepted"),
@@ -32,6 +33,7 @@ D = {
  "C08-A": ("C08", "set_ec_pub_key rejects coordinates longer than degree/8 octets (rounds down for P-521)", "every P-521 key (66-octet coordinates)"),
  "C08-B": ("C08", "crv is copied to item->curve in jwk_process_values for every kty (de-duplication of the EC / OKP importers)", "an RSA or oct JWK that carries a stray crv member"),
  "C08-C": ("C08", "set_ec_pub_key refuses x and y of different octet length", "an EC JWK written with minimal-length integers where exactly one coordinate has a leading zero octet"),
+ "C08-D": ("C08", "pctx_to_pem treats a non-empty OpenSSL error queue as a failed PEM write", "a JWK OpenSSL rejects, then any good key on the same thread: imported without error but without PEM"),
  "C09-A": ("C09", "key size compared in octets rounded UP ((bits + 7) / 8) in __check_hmac / __check_key_bits", "an RSA modulus of 2041..2047 bits"),
  "C09-B": ("C09", "_verify_sha_hmac calls sign_sha_hmac directly, bypassing __check_hmac in jwt_sign", "an HS* token verified with an oct key shorter than the hash"),
  "C09-C": ("C09", "RSA key size taken as BN_num_bytes(n) * 8 and OpenSSL's bit count only queried when that is 0", "an RSA modulus of 2041..2047 bits recorded as 2048"),
@@ -42,6 +44,7 @@ D = {
  "C10-D": ("C10", "claim on/off logic moved into a helper taking (secs - DISABLE) as int", "a positive offset whose low 32 bits are zero or negative as int (2^31, 2^32, 100 years): success, but the claim is switched off"),
  "C11-A": ("C11", "base64_decode drops the lower half of the range check in front of the table lookup", "a byte >= 0x80 (negative char) in a segment or JWK member: out-of-bounds table read, foreign byte accepted"),
  "C11-B": ("C11", "jwt_base64uri_decode rewritten to decode in 256-character chunks; a failing later chunk is taken for padding", "a text longer than 256 characters whose first foreign byte is at offset >= 256 (partially decoded)"),
+ "C11-C": ("C11", "jwt_base64uri_decode copies with memcpy and translates with strpbrk before the buffer is terminated", "a recycled / non-zeroed heap block behind the copied text: read and write outside the decoder's buffer"),
  "C12-A": ("C12", "a failed jwt_set_crypto_ops(_t) falls back to the first compiled-in provider", "an unknown provider name / id while GnuTLS is selected"),
  "C12-B": ("C12", "GnuTLS verify caches the imported public key by jwk_item_t address (thread-local, never invalidated)", "key rotation: verify, jwks_free, load another key that lands on the same address, verify"),
  "C12-C": ("C12", "GnuTLS ECDSA verify computes r.size = s.size = sig_len / 2 (rounds down)", "an ES* token whose signature is a valid r||s plus ONE extra octet: GnuTLS accepts, OpenSSL rejects"),
@@ -54,6 +57,7 @@ D = {
  "C14-D": ("C14", "jwt_set_json fast path returns EXIST for a taken name without storing it in the value", "a JSON-typed set of an existing name without replace, by a caller that reads value.error"),
  "C15-A": ("C15", "jwt_obj_check (which deletes on replace) runs before the new value is validated", "replace-set of an existing name with malformed / scalar JSON text or a NULL string: INVALID, but the old member is gone"),
  "C15-B": ("C15", "jwt_get_int range-checks against INT_MAX / INT_MIN", "a stored integer beyond 32 bits (exp after 2038): get INT answers TYPE"),
+ "C15-C": ("C15", "same idea as C15-A: jwt_obj_check (which deletes on replace) runs before json_loads in jwt_set_json", "a replace-set of an existing name with JSON text that is then refused"),
  "C16-A": ("C16", "jwks_item_get caches the last (item, index) and resumes from it; removals do not adjust the index", "get(i), free(j < i), get(k >= i)"),
  "C16-B": ("C16", "items are linked into the set at allocation (jwks_item_new); the json_deep_copy failure path frees the item without unlinking", "an allocation failure at json_deep_copy while loading a key: dangling node, later double free"),
  "C16-C": ("C16", "jwks_find_bykid remembers its last hit; jwks_item_free_bad does not invalidate it", "find an errored item by kid, jwks_item_free_bad, find again: freed item dereferenced"),
@@ -64,6 +68,7 @@ D = {
  "C17-D": ("C17", "jwks_process frees the set and returns NULL when jwk_process_one fails on an allocation", "loading into an existing, caller-owned keyring with an allocation failure: the caller's keyring is freed under it"),
  "C18-A": ("C18", "OpenSSL HMAC result taken from libcrypto's static buffer (md = NULL)", "two threads computing HS* MACs at the same time"),
  "C18-B": ("C18", "GnuTLS verify with a private JWK memoises the derived public key in unsynchronised process-wide state", "two threads verifying with two different private JWKs under GnuTLS"),
+ "C18-C": ("C18", "GnuTLS verify temporarily NUL-terminates the first line of the SHARED key's PEM in place to read its label", "two threads verifying with the same keyring item under GnuTLS"),
  "C19-A": ("C19", "only exp/nbf/iss/sub/aud are saved around the callback and put back with json_object_update", "a token lacking iss/sub/aud, a checker requiring it, a callback that adds it"),
  "C19-B": ("C19", "jwt_*_setkey refuses use=enc keys, but the post-callback __setkey_check does not", "a use=enc key selected inside a callback"),
  "C19-C": ("C19", "same idea as C19-A (only the five checked claims are saved around the callback)", "a token lacking a checked claim and a callback that adds it"),
